@@ -270,7 +270,7 @@ class FakeFile:
         if left < 0:
             left = 0
         k = left if amt is None or amt < 0 or amt > left else amt
-        if self.short and self.env is not None and k > 1:
+        if self.short and self.env is not None and k > 1 and amt is not None and amt >= 0:
             s = self.env.nd.next(0)
             if 0 < s < k:
                 k = s
